@@ -1,6 +1,7 @@
 """Record, for every obligation that the first strategy does not discharge, which strategy does
 (solver_hints.json). The hints only reorder the portfolio of pvc/solve.py; verdicts are unaffected."""
-import collections, json, re, sys
+import collections, json, os, re, sys
+os.environ["PVC_LEARN"] = "1"
 sys.path.insert(0, "/verif")
 from pvc import run as R
 R.load_contracts()
@@ -14,9 +15,8 @@ for r in res:
         if o["status"] != "discharged":
             continue
         keys = re.sub(r"\(split\)$", "", o["backend"]).split("+")
-        for k in keys:
-            if k != "cases":
-                hints[o["norm"]][k] += 1
-out = {n: [k for k, _ in c.most_common()] for n, c in hints.items()}
+        for rank, k in enumerate(keys):
+            hints[o["norm"]][k] += 10 if (len(keys) > 1 and rank == 0) else 1     # a measured-fastest strategy outweighs defaults
+out = {n: [k for k, _ in c.most_common()] for n, c in hints.items() if set(c) != {"cases"} }
 json.dump(out, open("/verif/solver_hints.json", "w"), indent=0, sort_keys=True)
 print(len(out), "obligation names with a hint;", collections.Counter(k for v in out.values() for k in v))
